@@ -27,7 +27,8 @@ CHECKS = {
             'All conforming frames over count 1..125 x fill 0..255 (x all unit addresses for counts 1/125, x trailing '
             'bytes on RTU), all 65536 registers x boundary values and all 65536 values x boundary registers for '
             'write echoes, AA55 payload length 0..255 x fill 0..255 per response type must make the real validator '
-            'return True; representatives go through the real transports and response_data() must equal the payload.',
+            'return True; representatives go through the real transports and response_data() must equal the payload; a '
+            'conforming frame must also be accepted after an earlier request lost the remainder of a fragmented answer.',
             'Trusted: frame builders of mc/wire.py.  Uniform and walking-one payloads only (the validators do not read '
             'payload bytes except through the checksum).',
             'DESIGN.md section 3, C02'),
@@ -36,7 +37,9 @@ CHECKS = {
             'Requests built by the real command classes for per-dimension exhaustive argument grids are parsed back '
             'by a strict independent parser and must decode to exactly the intended operation; the reachable state '
             'space of the Modbus/TCP transaction counter (65534 states and the wrap) is walked completely from the '
-            'initial and from near-wrap states; a silent TCP peer must see pairwise different ids on retransmissions.',
+            'initial and from near-wrap states; a silent TCP peer must see pairwise different ids on retransmissions; requests '
+            'built through read_command / write_command / write_multi_command of 8 coexisting protocol objects (udp, tcp x '
+            '4 addresses), interleaved, decode to the address and arguments of the call that built them.',
             'Trusted: strict parsers of mc/wire.py.  Grids are per-dimension exhaustive, not the full cartesian product.',
             'DESIGN.md section 3, C03'),
     'C04': ('model_checking',
@@ -136,7 +139,7 @@ CHECKS = {
             'bounded-exhaustive per-field enumeration against independent reference decoders + perturbation of every other register',
             'Every sensor with own registers of every table of ET/DT/ES is decoded for all contents of its 2-byte field '
             '(each half of 4-byte fields, per-byte/per-word for larger groups) embedded in seed-selected blocks at three '
-            'block start addresses and both Modbus framings and compared with a reference decoder written per type from '
+            'block start addresses and both Modbus framings (Modbus/TCP also with an unreliable MBAP length field: byte count only / 0) and compared with a reference decoder written per type from '
             'the documentation; every other byte of the block is then perturbed and the value must not change; whole tables with '
             'uniform contents are decoded in one process in table order and reverse order (state shared between sensors).  The '
             'register map itself (id -> type, address, scale, unit) is compared with a pinned copy.',
@@ -148,7 +151,9 @@ CHECKS = {
             'Every (code, label) pair, 4-byte and 2+2-byte bitmap and every derived sensor (sums, products, house '
             'consumption, grid direction) found in the tables is evaluated through Inverter._map_response for all 65536 '
             'code words (boundary-grid products for formulas) and compared with its definition over the raw values of the '
-            'same result; which documented label table each label sensor uses is pinned.',
+            'same result; which documented label table each label sensor uses is pinned; the same relations are evaluated '
+            'inside every read_runtime_data() result of configured inverter objects (every tag class x rated powers x '
+            'firmware) polled over a grid of the power words and their neighbours.',
             'Trusted: formulas written from the table comments / property text in mc/checks/c13.py, pinned label tables '
             'mc/data/labels.json.  One genuine defect is recorded as a known finding (EnumBitmap22).',
             'DESIGN.md section 3, C13'),
@@ -157,7 +162,8 @@ CHECKS = {
             'For every model configuration (serial tags x rated power x every subset of refused optional blocks x battery) '
             'read_runtime_data() runs against the device model while every ProtocolResponse.read is observed '
             '(position, requested, returned); every read must return exactly the bytes requested.  The same is computed '
-            'statically (documented sensor span versus the window of the request that fetched it) and both must agree.',
+            'statically (documented sensor span versus the window of the request that fetched it) and both must agree; over '
+            'tcp the device model also answers with unreliable MBAP length fields (byte count, 0, 6, +7).',
             'Trusted: device model answers with exact-length frames; documented type sizes of mc/refdec.py.  Two sensors '
             'of the MPPT block are recorded as known findings.',
             'DESIGN.md section 3, C14'),
@@ -195,7 +201,8 @@ CHECKS = {
             'de-duplication) for ET/DT/ES configurations covering capability fallbacks, eco-mode register contents and '
             'work modes, plus connect()/discover(): the device model must see only read functions.  Every integer '
             'argument in wide windows round each setter guard and near-miss setting ids must transmit no write (and '
-            'raise ValueError where documented); in-range arguments are checked to produce writes (vacuity guard).',
+            'raise ValueError where documented); in-range arguments are checked to produce writes (vacuity guard); over '
+            'Modbus/TCP with one retry, [setter, monitoring call] with every connection attempt refused once.',
             'Trusted: device model request log (strict parser).',
             'DESIGN.md section 3, C18'),
     'C19': ('model_checking',
